@@ -124,6 +124,8 @@ func init() {
 			safely(r, "ruleKinds", func() { ruleKinds(w, r, v2) })
 			safely(r, "ruleCtxPos", func() { ruleCtxPos(w, r, pf) })
 			safely(r, "ruleChildResult", func() { ruleChildResult(w, r, pf) })
+			// hand-edited patches reach Patch through the native reader: every context line must arrive in the hunk
+			r.Only(func(o Ob) bool { return o.Rule == "R-AUTOMATON" }, func(sub *Report) { safely(sub, "ruleAutomaton", func() { ruleAutomaton(w, sub, v2) }) })
 			safely(r, "ruleArrayDispatch", func() { ruleArrayDispatch(w, r, v2, "v2", "patch") })
 			safely(r, "ruleEqSize", func() { ruleEqSize(w, r, newNodeTypes(w, v2, "v2")) })
 			r.Floor("R-EXPECT", 9)
@@ -354,6 +356,7 @@ func init() {
 			r.Only(func(o Ob) bool { return o.Rule == "R-CLI/O" && strings.Contains(o.Key, "is-library-rendering") }, func(sub *Report) { runCLI(w, sub, "output") })
 			safely(r, "ruleRawTypes", func() { ruleRawTypes(w, r, v2) })
 			safely(r, "ruleDiffReaders", func() { ruleDiffReaders(w, r, v2, "v2", "Diff") })
+			safely(r, "ruleRenderAsserts", func() { ruleRenderAsserts(w, r, v2, "v2") })
 			safely(r, "ruleScanErr", func() { ruleScanErr(w, r, v2, "v2") })
 			r.Floor("R-AUTOMATON", 40)
 			r.Floor("R-PATHTAB", 6)
@@ -378,6 +381,7 @@ func init() {
 				return (o.Rule == "R-CLI/O" && strings.Contains(o.Key, "printTranslation") && strings.Contains(o.Key, "is-library-rendering")) ||
 					(o.Rule == "R-CLI/M" && (strings.Contains(o.Key, "json2yaml") || strings.Contains(o.Key, "yaml2json")))
 			}, func(sub *Report) { runCLI(w, sub, "output", "modes") })
+			r.Only(func(o Ob) bool { return o.Rule == "R-CLI/P" }, func(sub *Report) { safely(sub, "runCLI", func() { runCLI(w, sub, "plumbing") }) })
 			safely(r, "ruleRawInput", func() { ruleRawInput(w, r, v2, "v2") })
 			r.Floor("R-YAMLTYPES", 10)
 			r.Floor("R-CODEC", 14)
@@ -398,6 +402,7 @@ func init() {
 			// what the command prints is the library's rendering, byte for byte (no post-processing in package main)
 			r.Only(func(o Ob) bool { return o.Rule == "R-CLI/O" && strings.Contains(o.Key, "is-library-rendering") }, func(sub *Report) { runCLI(w, sub, "output") })
 			safely(r, "ruleRawTypes", func() { ruleRawTypes(w, r, v2) })
+			safely(r, "ruleSentinels", func() { ruleSentinels(w, r, v2, "v2") })
 			safely(r, "rulePtrAgree", func() { rulePtrAgree(w, r, v2) })
 			safely(r, "rulePureEntries", func() {
 				rulePureEntries(w, r, v2, newPatchFamily(w, v2, "v2"), map[string]bool{"Diff.RenderPatch": true})
@@ -426,6 +431,7 @@ func init() {
 			safely(r, "ruleNotIgnored", func() { ruleNotIgnored(w, r, pf, listModePatch) })
 			safely(r, "ruleKinds", func() { ruleKinds(w, r, v2) })
 			safely(r, "ruleCtxPos", func() { ruleCtxPos(w, r, pf) })
+			safely(r, "ruleDashAppend", func() { ruleDashAppend(w, r, pf) })
 			safely(r, "ruleDiffReaders", func() { ruleDiffReaders(w, r, v2, "v2", "Patch") })
 			safely(r, "rulePatchSeq", func() { rulePatchSeq(w, r, v2) })
 			safely(r, "ruleParent", func() { ruleParent(w, r, v2) })
@@ -461,6 +467,8 @@ func init() {
 			// what the command prints is the library's rendering, byte for byte (no post-processing in package main)
 			r.Only(func(o Ob) bool { return o.Rule == "R-CLI/O" && strings.Contains(o.Key, "is-library-rendering") }, func(sub *Report) { runCLI(w, sub, "output") })
 			safely(r, "ruleRawTypes", func() { ruleRawTypes(w, r, v2) })
+			safely(r, "ruleSentinels", func() { ruleSentinels(w, r, v2, "v2") })
+			safely(r, "ruleLoopFresh", func() { ruleLoopFresh(w, r, v2, "v2", [][2]string{{"Diff", "RenderMerge"}, {"Diff", "RenderPatch"}}, "Add", "Remove", "Before", "After") })
 			safely(r, "ruleObjRecurse", func() { ruleObjRecurse(w, r, v2, "v2") })
 		}})
 	register(&PropSpec{ID: "C12",
@@ -474,6 +482,7 @@ func init() {
 			pf := newPatchFamily(w, v2, "v2")
 			safely(r, "ruleFWD", func() { ruleFWD(w, r, pf, []string{"newValues", "strategy", "pathAhead"}) })
 			safely(r, "ruleChildResult", func() { ruleChildResult(w, r, pf) })
+			safely(r, "ruleLoopFresh", func() { ruleLoopFresh(w, r, v2, "v2", [][2]string{{"", "readMergeInto"}, {"", "ReadMergeString"}}, "Add", "Remove", "Before", "After") })
 			safely(r, "ruleDescend", func() { ruleDescend(w, r, pf) })
 			safely(r, "ruleNotIgnored", func() { ruleNotIgnored(w, r, pf, listModePatch) })
 			safely(r, "ruleDeleteVoid", func() { ruleDeleteVoid(w, r, pf) })
@@ -544,6 +553,7 @@ func init() {
 			safely(r, "ruleJSONCodec", func() { ruleJSONCodec(w, r, lib, "lib") })
 			safely(r, "ruleDeleteVoid", func() { ruleDeleteVoid(w, r, newPatchFamily(w, lib, "lib")) })
 			safely(r, "ruleDiffReaders", func() { ruleDiffReaders(w, r, lib, "lib", "Patch", "Merge") })
+			safely(r, "ruleSentinels", func() { ruleSentinels(w, r, lib, "lib") })
 			safely(r, "ruleScanErr", func() { ruleScanErr(w, r, lib, "lib") })
 		}})
 }
